@@ -7,6 +7,7 @@ CONSTANTS
   MaxSteps = 5
   Forms = {"take", "read", "take_next", "read_next", "take_inst", "read_inst"}
   Kinds = {"V", "D"}
+  Retransmit = FALSE
   GenK = 200
 CONSTRAINT Bound
 VIEW View
